@@ -77,12 +77,18 @@ static Cfg make_cfg(uint64_t seed, long ci) {
     bool reading = c.kind == 0 || c.kind == 1 || c.kind == 2 || c.kind == 5;
     if (reading && r.chance(1, 4))     // unknown-type objects (skipped by size; body may contain a complete fake object): value -(1000 + declared size)
         for (size_t i = 0; i < c.sizes.size(); i++) if (r.chance(1, 3)) { long sz = 16 + (long)r.below((uint32_t)std::min<long>(b + c.C, 3000)); c.sizes[i] = -(1000 + sz); }
+    if (r.chance(1, 4))                // restore-point containers (type 115): delivered like any object, but not counted in the file header's objectCount
+        for (size_t i = 0; i < c.sizes.size(); i++) if (c.sizes[i] > -1000 && r.chance(1, 3)) c.sizes[i] = -3;
     int nknown = 0; for (long x : c.sizes) if (x > -1000) nknown++;
     c.k = (c.kind == 1 || c.kind == 2) ? (int)r.below(nknown + 1) : nknown;
     c.devfull = !reading && c.kind != 6 && (ci / 12) % 4 == 1;
     return c;
 }
 
+static RestorePointContainer * make_rp(uint32_t uid) {
+    RestorePointContainer * m = new RestorePointContainer; m->objectTimeStamp = uid; m->objectFlags = 1; m->data.resize(uid % 7);
+    for (size_t k = 0; k < m->data.size(); k++) m->data[k] = (uint8_t)(uid * 5 + k); m->reservedRestorePointContainer[3] = (uint8_t)uid; return m;
+}
 static LinMessage2 * make_lin(uint32_t uid) {
     LinMessage2 * m = new LinMessage2; m->apiMajor = 1 + uid % 2; m->objectTimeStamp = uid; m->objectFlags = 1; m->channel = 7; m->id = (uint8_t)uid; m->dlc = 8; m->crc = (uint16_t)(uid * 3);
     for (size_t k = 0; k < m->data.size(); k++) m->data[k] = (uint8_t)(uid + k); m->respBaudrate = uid; return m;
@@ -106,6 +112,7 @@ static twin::Bytes make_stream(const Cfg & c) {
             uint32_t sz = (uint32_t)(-c.sizes[i] - 1000); o = twin::unknown_object(200 + (uint32_t)i % 50, sz, 0xEE);
             if (sz >= 16 + 8 + 48) { twin::Bytes fake = twin::can_message(999999); memcpy(&o[16 + (i % 3) * 4], fake.data(), fake.size()); }   // a reader that resumes inside the body would deliver this
         }
+        else if (c.sizes[i] == -3) { RestorePointContainer * m = make_rp(1000 + (uint32_t)i); MemFile mf; m->write(mf); delete m; o = mf.buf; }
         else if (c.sizes[i] == -2) { LinMessage2 * m = make_lin(1000 + (uint32_t)i); MemFile mf; m->write(mf); delete m; o = mf.buf; }   // encoded by the codec (C01-C03 cover it), wrapped independently
         else o = c.sizes[i] < 0 ? twin::can_message(1000 + i) : twin::app_text(1000 + i, (size_t)c.sizes[i]);
         s.insert(s.end(), o.begin(), o.end());
@@ -116,6 +123,7 @@ static twin::Bytes make_stream(const Cfg & c) {
 static ObjectHeaderBase * make_object(const Cfg & c, size_t i) {
     uint32_t uid = 1000 + (uint32_t)i;
     if (c.sizes[i] == -2) return make_lin(uid);
+    if (c.sizes[i] == -3) return make_rp(uid);
     if (c.sizes[i] < 0) { CanMessage * m = new CanMessage; m->objectTimeStamp = uid; m->objectFlags = 1; m->channel = 1; m->dlc = 8; m->id = uid; uint64_t d = uid * 0x9E3779B97F4A7C15ULL; memcpy(m->data.data(), &d, 8); return m; }
     AppText * t = new AppText; t->objectTimeStamp = uid; t->objectFlags = 1; t->source = uid; t->text.resize((size_t)c.sizes[i]);
     for (size_t k = 0; k < t->text.size(); k++) t->text[k] = (char)('A' + (uid * 7 + k * 13) % 53);
@@ -126,6 +134,14 @@ static ObjectHeaderBase * make_object(const Cfg & c, size_t i) {
 static std::string check_and_consume(ObjectHeaderBase * o, const Cfg & c, size_t i) {
     std::string err;
     uint32_t uid = 1000 + (uint32_t)i;
+    if (c.sizes[i] == -3) {
+        RestorePointContainer * m = dynamic_cast<RestorePointContainer *>(o);
+        if (!m) err = "wrong class (RestorePointContainer expected)"; else if (m->objectTimeStamp != uid || m->reservedRestorePointContainer[3] != (uint8_t)uid) err = "wrong object (RestorePointContainer " + std::to_string(m->objectTimeStamp) + " expected " + std::to_string(uid) + ")";
+        else if (m->data.size() != uid % 7 || m->dataLength != uid % 7 || (m->data.size() && m->data[0] != (uint8_t)(uid * 5))) err = "modified RestorePointContainer";
+        if (m) { m->objectSize = 0; m->objectType = ObjectType::UNKNOWN; m->objectTimeStamp = ~0ULL; std::fill(m->data.begin(), m->data.end(), 0xee); }
+        delete o;
+        return err;
+    }
     if (c.sizes[i] == -2) {
         LinMessage2 * m = dynamic_cast<LinMessage2 *>(o);
         if (!m) err = "wrong class"; else if (m->objectTimeStamp != uid || m->id != (uint8_t)uid || m->crc != (uint16_t)(uid * 3)) err = "wrong object (LinMessage2 " + std::to_string(m->objectTimeStamp) + " expected " + std::to_string(uid) + ")";
@@ -231,7 +247,24 @@ int main(int argc, char ** argv) {
         if (ci != cur_cfg) {
             cur_cfg = ci; c = dfsmode ? make_dfs_cfg(ci) : make_cfg(seed, ci); ref_ok = false;
             bool reading = c.kind == 0 || c.kind == 1 || c.kind == 2 || c.kind == 5;
-            if (reading) twin::save(path, twin::wrap(make_stream(c), c.C, std::min(c.level, 9)));     // the independent encoder speaks zlib levels
+            if (reading) {
+                twin::Bytes st = make_stream(c), f = twin::wrap(st, c.C, std::min(c.level, 9));     // the independent encoder speaks zlib levels
+                Rng hr(Rng::mix(seed ^ 0x4EAD, (uint64_t)ci));
+                if (hr.chance(1, 2)) {
+                    // every other input carries the header a finished Vector log carries (sizes, object count without restore points, API number,
+                    // time stamps) instead of the all-zero statistics of an unfinished one: a reader may not be led astray by either
+                    static const uint32_t apis[] = {4070100, 4080200, 4110100};
+                    uint32_t count = 0; for (long x : c.sizes) if (x != -3) count++;
+                    size_t cs = c.C ? c.C : 1, ncont = (st.size() + cs - 1) / cs;
+                    uint64_t usize = 144 + (uint64_t)st.size() + 32 * (uint64_t)ncont, fsz = f.size();
+                    uint32_t api = apis[hr.below(3)];
+                    memcpy(&f[8], &api, 4); f[12] = 2; f[13] = (uint8_t)std::min(c.level, 9); f[14] = 11; f[15] = 0;
+                    memcpy(&f[16], &fsz, 8); memcpy(&f[24], &usize, 8); memcpy(&f[32], &count, 4);
+                    uint16_t t0[8] = {2024, 5, 2, 14, 10, 30, 0, 0}, t1[8] = {2024, 5, 2, 14, 10, 31, 7, 250};
+                    memcpy(&f[40], t0, 16); memcpy(&f[56], t1, 16);
+                }
+                twin::save(path, f);
+            }
             else {
                 // uncontrolled reference run: the file every schedule must reproduce byte for byte
                 wd::note(("native reference " + c.str()).c_str());
